@@ -20,6 +20,7 @@ import (
 	"strings"
 	"testing"
 
+	"github.com/XiaoMi/Gaea/models"
 	"github.com/XiaoMi/Gaea/parser"
 	"github.com/XiaoMi/Gaea/proxy/plan"
 	"github.com/XiaoMi/Gaea/util"
@@ -111,7 +112,9 @@ func c06DefaultTmpl(kw string) c06Tmpl {
 	return c06Tmpls[0]
 }
 
-var c06Roles = []string{"U", "S", "L", "G"} // unsharded, sharded, linked, global
+var c06Roles = []string{"U", "S", "L", "G", "N"} // unsharded, sharded, linked, global, sharded with a non-ASCII (multi-byte UTF-8) name
+
+const c06NonASCIITable = "tbl_订单"
 
 func c06TableName(role string, slot int) string {
 	switch role {
@@ -121,6 +124,8 @@ func c06TableName(role string, slot int) string {
 		return "tbl_link"
 	case "G":
 		return "tbl_glob"
+	case "N":
+		return c06NonASCIITable
 	}
 	return fmt.Sprintf("t%d", slot+2)
 }
@@ -275,7 +280,9 @@ type c06Harness struct {
 }
 
 func c06NewHarness(t *testing.T) *c06Harness {
-	r := rigStart(t, rigOpts{Namespaces: rwNSList(rwNamespace("ns06", true)), FakePools: true})
+	ns := rwNamespace("ns06", true)
+	ns.ShardRules = append(ns.ShardRules, &models.Shard{DB: "db", Table: c06NonASCIITable, Type: "mod", Key: "id", Locations: []int{2, 2}, Slices: []string{"slice-0", "slice-1"}})
+	r := rigStart(t, rigOpts{Namespaces: rwNSList(ns), FakePools: true})
 	se := newSessionExecutor(r.m)
 	se.namespace = "ns06"
 	se.user = "ns06_rw"
@@ -351,7 +358,7 @@ func (h *c06Harness) observe(c c06Case) c06Obs {
 
 func TestVerif_C06(t *testing.T) {
 	rec := kit.Start("C06", "exploration",
-		fmt.Sprintf("case = template (%d: single table, alias, comma join, JOIN variants, sub-queries, UNION, multi-table DELETE/UPDATE, INSERT/REPLACE with and without INTO, INSERT..SELECT) x role vector over {unsharded, sharded, linked, global} for every table slot "+
+		fmt.Sprintf("case = template (%d: single table, alias, comma join, JOIN variants, sub-queries, UNION, multi-table DELETE/UPDATE, INSERT/REPLACE with and without INTO, INSERT..SELECT) x role vector over {unsharded, sharded, linked, global, sharded with a multi-byte UTF-8 name} for every table slot "+
 			"x name decorations {case (3), back-quotes (2), schema qualification (3), glued comment (3), separator (3), line comment before the name (2)} x session db {set, unset} x leading comment {none, `-- line`, block}; templates include multi-line statements (LF/CRLF) whose continuation line starts with --, # or /* without being a comment; thorough enumerates the whole product; "+
 			"non-trivial = references a sharded/linked/global table by construction AND confirmed by plan.NewChecker/BuildPlan (key = template|roles|decorations)", len(c06Tmpls)))
 	defer rec.Finish(t)
@@ -380,7 +387,7 @@ func TestVerif_C06(t *testing.T) {
 				}
 			}
 			for i, r := range cur.Roles {
-				if r == "L" || r == "G" {
+				if r == "L" || r == "G" || r == "N" {
 					cands = append(cands, cur.withRole(i, "S"))
 				}
 			}
